@@ -1,6 +1,7 @@
 //! Shared generators (proptest strategies).
 pub mod annot;
 pub mod faultsave;
+pub mod formula;
 pub mod grid;
 pub mod password;
 pub mod style;
